@@ -27,4 +27,31 @@ theorem amt_to_forward_sound (inAmt : Nat) (r : PaymentRelay) (a : Nat) (h : amt
       exact ⟨by omega, by omega⟩
   · simp [chkSub, hb] at h
 
+/-- maximality: forwarding one msat more would not leave the node the fee its `payment_relay` promises -/
+theorem amt_to_forward_maximal (inAmt : Nat) (r : PaymentRelay) (a : Nat) (h : amtToForwardMsat inAmt r = some a) :
+    ¬ (a + 1 + relayFee r (a + 1) ≤ inAmt) := by
+  obtain ⟨delta, prop, base⟩ := r
+  unfold amtToForwardMsat at h
+  simp only [relayFee]
+  by_cases hb : base ≤ inAmt
+  · simp only [chkSub, hb, if_true] at h
+    generalize ha0 : (inAmt - base) * 1000000 / (prop + 1000000) = a0 at h
+    have key : (inAmt - base) * 1000000 < (prop + 1000000) * (a0 + 1) := by
+      rw [← ha0]; exact Nat.lt_mul_div_succ _ (by omega)
+    rw [Nat.add_mul, Nat.mul_comm prop (a0 + 1)] at key
+    by_cases h1 : inAmt ≥ a0 + 1 + ((a0 + 1) * prop / 1000000 + base)
+    · simp [h1] at h
+      subst h
+      intro hsup
+      have q2 := Nat.lt_mul_div_succ ((a0 + 1 + 1) * prop) (show 0 < 1000000 by omega)
+      have mono : (a0 + 1) * prop ≤ (a0 + 1 + 1) * prop := Nat.mul_le_mul_right _ (by omega)
+      generalize (a0 + 1 + 1) * prop / 1000000 = q at hsup q2
+      generalize (a0 + 1 + 1) * prop = p2 at q2 mono
+      generalize (a0 + 1) * prop = p1 at key mono h1
+      omega
+    · simp [h1] at h
+      obtain ⟨hz, rfl⟩ := h
+      intro hsup; exact h1 (by omega)
+  · simp [chkSub, hb] at h
+
 end Ldk.BlindedGen
